@@ -27,6 +27,7 @@ static bool     g_guards_forbidden;      // replay must not consult guards (C09)
 // C04 substitution: the guard of state g_sub_guard (entry guard if g_sub_is_entry) vetoes round 1 and requests g_sub_dest instead
 static int      g_sub_guard = -1, g_sub_dest = 0; static bool g_sub_is_entry = true, g_sub_done, g_sub_forever;
 static int      g_round_now; static bool g_cancel_round[3]; static unsigned g_sub_guard_calls;
+static bool     g_sub_nocancel;          // the keyed guard requests g_sub_dest WITHOUT vetoing (a second approved round in one step)
 // C02/C12: answers of select()/rank()/utility(): symbolic, one answer per state and step (memoised), recorded for the oracle
 static bool     g_sel_called[VM_NS], g_rank_called[VM_NS], g_util_called[VM_NS];
 static uint8_t  g_sel_val[VM_NS]; static int8_t g_rank_val[VM_NS]; static float g_util_val[VM_NS];
@@ -78,9 +79,11 @@ struct St : FSM::State {
     if (g_sub_guard >= 0 && !g_sub_forever && c.pendingTransitions().count() > 0 && c.pendingTransitions()[0].destination == (StateID) g_sub_dest) round = 2;
     g_round_now = round;
     bool cancel;
-    if (ID == g_sub_guard && is_entry == g_sub_is_entry && (g_sub_forever || (round == 1 && !g_sub_done))) {
+    if (ID == g_sub_guard && is_entry == g_sub_is_entry && g_sub_nocancel && !g_sub_done) {
+      g_sub_done = true; cancel = false; c.changeTo((StateID) g_sub_dest);
+    } else if (ID == g_sub_guard && is_entry == g_sub_is_entry && !g_sub_nocancel && (g_sub_forever || (round == 1 && !g_sub_done))) {
       g_sub_done = true; ++g_sub_guard_calls; cancel = true; c.cancelPendingTransitions(); c.changeTo((StateID) g_sub_dest);
-    } else if (g_sub_guard >= 0 && round == 1) { cancel = false;          // substitution jobs: in round 1 only the keyed guard vetoes (keeps the request queue concrete, DESIGN L2)
+    } else if (g_sub_guard >= 0 && (round == 1 || g_sub_nocancel)) { cancel = false;          // substitution jobs: in round 1 only the keyed guard vetoes (keeps the request queue concrete, DESIGN L2)
     } else { cancel = g_deterministic ? false : nd_bool(); if (cancel) c.cancelPendingTransitions(); }
     if (cancel) { g_cancel_round[round] = true; g_round_cancelled = true; ++g_cancels_issued; }
   }
